@@ -329,17 +329,17 @@ Proof.
   - (* a handler is responsible *)
     rewrite cwr_pure_plain by (apply reserved_not_disconnect; assumption).
     unfold ch_pure, arity_ok, outcome_of, arity_bad, some_res.
-    destruct (aget N.eqb (behav c) h) as [b|]; [|reflexivity].
+    destruct (aget N.eqb (behav c) h) as [b|]; [|cbn [fst snd]; destruct id; reflexivity].
     destruct (h_arity b) as [k|].
-    + destruct (Nat.eqb k (List.length a)); cbn [negb fst snd]; [|reflexivity].
+    + destruct (Nat.eqb k (List.length a)); cbn [negb fst snd]; [|destruct id; reflexivity].
       destruct (h_outcome b) as [v|ra|x]; cbn [outcome_res fst snd].
       * rewrite calls_of_app, ack_effs_calls, out_eios_app, outs_of_app. cbn [calls_of flat_map app out_eios outs_of].
         rewrite calls_eqb_refl, ack_effs_eios. cbn [andb].
         destruct id as [i|]; cbn [ack_effs]; [|reflexivity].
         rewrite sp_effs_outs. unfold is_live. rewrite Hl.
         destruct (frames_of c ACK (PList (pack v)) ns (Some i)); [apply pvlist_eqb_refl|reflexivity].
-      * cbn. rewrite N.eqb_refl, pvlist_eqb_refl. destruct id; reflexivity.
-      * cbn. rewrite N.eqb_refl, pvlist_eqb_refl. destruct id; reflexivity.
+      * cbn [calls_of flat_map app]; rewrite calls_eqb_refl; destruct id; reflexivity.
+      * cbn [calls_of flat_map app]; rewrite calls_eqb_refl; destruct id; reflexivity.
     + cbn [negb fst snd].
       destruct (h_outcome b) as [v|ra|x]; cbn [outcome_res fst snd].
       * rewrite calls_of_app, ack_effs_calls, out_eios_app, outs_of_app. cbn [calls_of flat_map app out_eios outs_of].
@@ -347,8 +347,8 @@ Proof.
         destruct id as [i|]; cbn [ack_effs]; [|reflexivity].
         rewrite sp_effs_outs. unfold is_live. rewrite Hl.
         destruct (frames_of c ACK (PList (pack v)) ns (Some i)); [apply pvlist_eqb_refl|reflexivity].
-      * cbn. rewrite N.eqb_refl, pvlist_eqb_refl. destruct id; reflexivity.
-      * cbn. rewrite N.eqb_refl, pvlist_eqb_refl. destruct id; reflexivity.
+      * cbn [calls_of flat_map app]; rewrite calls_eqb_refl; destruct id; reflexivity.
+      * cbn [calls_of flat_map app]; rewrite calls_eqb_refl; destruct id; reflexivity.
   - (* class-based namespace without the method *)
     unfold unhandled_method.
     assert (Hack : forall v,
@@ -364,7 +364,7 @@ Proof.
       destruct id as [i|]; cbn [ack_effs]; [|reflexivity].
       rewrite sp_effs_outs. unfold is_live. rewrite Hl.
       destruct (frames_of c ACK (PList (pack v)) ns (Some i)); [apply pvlist_eqb_refl|reflexivity]. }
-    destruct ev; try (cbn [truthy fst snd]; exact (Hack PNone));
-      try (destruct (truthy _); cbn [fst snd]; [destruct id; reflexivity | exact (Hack PNone)]).
-    all: try (cbn [fst snd]; destruct id; reflexivity).
+    destruct ev; try discriminate Hunh; cbn [truthy fst snd];
+      repeat match goal with |- context [if ?b then _ else _] => match type of b with bool => destruct b end end; cbn [fst snd];
+      first [exact (Hack PNone) | destruct id; reflexivity].
 Qed.
